@@ -135,6 +135,20 @@ Proof.
   intros H recover net t a H1 H2 S. apply sender_ok_inv in S. destruct S as ([E|E] & _); congruence.
 Qed.
 
+(* V is an unbounded number in the model (t_v : N, any size, as on the wire):
+   acceptance pins it to the two values exactly, as integers - no modulus, so
+   V + k*2^64, V + k*2^65 ... are all rejected *)
+Lemma v_exact : forall H recover net t a,
+  sender H recover net t = SOk a -> t_v t = 35 + 2 * net \/ t_v t = 36 + 2 * net.
+Proof. intros H recover net t a S. apply sender_ok_inv in S. tauto. Qed.
+
+Lemma v_twin_rejected : forall H recover net t a d,
+  d <> 0 -> (t_v t = 35 + 2 * net + d \/ t_v t = 36 + 2 * net + d) -> 2 <= d ->
+  sender H recover net t <> SOk a.
+Proof.
+  intros H recover net t a d Hd Hv H2 S. apply v_exact in S. lia.
+Qed.
+
 (* a transaction accepted under [net] is accepted under no other network id *)
 Lemma one_network : forall H recover net net' t a a',
   sender H recover net t = SOk a -> sender H recover net' t = SOk a' -> net = net'.
